@@ -905,10 +905,15 @@ theorem nsRow_some {l : List Entity} {id : Int} {v : Nat} {r : Entity} (h : nsRo
   simp only [Bool.and_eq_true, beq_iff_eq] at h2
   exact ⟨h1, h2.1.1, h2.1.2, h2.2⟩
 
-/-- "namespaces cannot be renamed": a successful request of type namespace that edits an existing row (whatever its
-    create flag and id sign) carries exactly the name the row already has, and the row is a namespace row.
-    (On the pinned tree this is false for `create = true` on an existing builtin namespace: see `old_code_renames…`.) -/
-theorem namespace_not_renamable (s : State) (hi : Inv s) (a : SaveReq) (s' : State) (ev : Event)
+/-- "namespaces cannot be renamed".
+    FULL STATEMENT (false for the code, see the last `example` of this section): after any successful save every row of type
+    namespace has the name it had before.
+    PROVED (partial: requests of type namespace, which is how the property's "requests for … namespaces" is read here): a successful
+    request of type namespace that edits an existing row (whatever its create flag and id sign) carries exactly the name the row
+    already has, and the row is a namespace row. What is missing: requests whose type differs from the row's type — SaveEntity never
+    compares the two. (On the pinned tree the partial statement is false as well, for `create = true` on an existing builtin
+    namespace: `saveV .old` examples below; that is the defect fixed by fixes/C15-builtin-namespace-rename.diff.) -/
+theorem namespace_not_renamable_partial (s : State) (hi : Inv s) (a : SaveReq) (s' : State) (ev : Event)
     (h : save s a = (s', .ok ev false)) (ht : a.typ = tNamespace) :
     ∀ r ∈ s.ents, r.id = a.id → r.name = a.name ∧ r.typ = tNamespace := by
   have hs := save_shape .fixed s a
@@ -954,7 +959,7 @@ def builtinNs : State := (saveV .old State.empty (nsReq 2 0 true)).1
 example : (saveV .old builtinNs (nsReq 3 1 true)).1.ents.map (·.name) = [⟨0, 3⟩] := by decide
 example : (saveV .fixed builtinNs (nsReq 3 1 true)) = (builtinNs, .err .renameNs) := by decide
 example : (saveV .fixed builtinNs (nsReq 3 1 false)) = (builtinNs, .err .renameNs) := by decide
-/-- non-vacuity of `namespace_not_renamable`: an edit keeping the name succeeds (with the create flag the same request
+/-- non-vacuity of `namespace_not_renamable_partial`: an edit keeping the name succeeds (with the create flag the same request
     is stopped earlier by checkCreateEntity: the name is taken) -/
 example : (save builtinNs (nsReq 2 1 true)).2 = .err .exists := by decide
 example : (save builtinNs (nsReq 2 1 false)).2 = .ok (mkEvent (nsReq 2 1 false) (-3) 2 0) false := by decide
@@ -1009,7 +1014,7 @@ theorem distinct_shape {var : Variant} {s : State} {a : SaveReq} {p : State × S
     have hyv := le_maxVer _ _ hy
     by_cases h1 : x.id = r.id <;> by_cases h2 : y.id = r.id
     · exact absurd (h1.trans h2.symm) hxy.1
-    · simp only [editedRow, h1, h2, beq_self_eq_true, if_true]
+    · simp only [editedRow, h1, beq_self_eq_true, if_true]
       have : (y.id == r.id) = false := by simpa using h2
       simp only [this]
       exact ⟨fun h => h2 h.symm, by simp; omega⟩
